@@ -52,8 +52,8 @@ def run_one(job):
 
 def main():
     ap = argparse.ArgumentParser()
-    ap.add_argument('--base', default='/tmp/seedbase/repo')
-    ap.add_argument('--seeds', default='/tmp/seedout')
+    ap.add_argument('--base', default='/repo')
+    ap.add_argument('--seeds', default=os.path.join(HERE, 'seeded'))
     ap.add_argument('--props', default='own')
     ap.add_argument('--verbose', '-v', action='store_true')
     ap.add_argument('patterns', nargs='*')
